@@ -97,8 +97,9 @@ package collection
 //@   modifies nothing
 //@   ensures len(min) == 2 && len(max) == 2 && min[0] == vdown(rect.Min.X) && min[1] == vdown(rect.Min.Y) && max[0] == vup(rect.Max.X) && max[1] == vup(rect.Max.Y)
 //@ func rtreeItem
+//@   uses rt.stored
 //@   modifies nothing
-//@   ensures data == item
+//@   ensures data == item && len(min) == 2 && len(max) == 2 && min[0] == stMinX(item) && min[1] == stMinY(item) && max[0] == stMaxX(item) && max[1] == stMaxY(item)
 
 //@ func Collection.indexInsert
 //@   requires c != nil && item != nil
@@ -264,3 +265,29 @@ package collection
 //@   ensures [result] result == lastret
 //@   ensures [steps] cursor != nil ==> steps[cursor] == old(steps)[cursor] + offOf(cursor) + nvisited
 //@   loop 1 invariant iterInv(iter, cursor, offset, count, idx1, alive)
+
+// ---- float32 rounding of index rectangles (C02), proved in IEEE-754 semantics --------------------
+// Down(d) <= float32(d) <= Up(d) for every non-NaN double; with monotonicity of rounding this gives the
+// search-soundness fact a <= b ==> Down(a) <= Up(b) on the whole float64 range (axiom rt.round below).
+//@ func rtreeValueDown@ieee
+//@   ieee
+//@   ensures [round-down] !isNaN(d) ==> widen(result) <= f32(d)
+//@ func rtreeValueUp@ieee
+//@   ieee
+//@   ensures [round-up] !isNaN(d) ==> f32(d) <= widen(result)
+//@ lemma f32.monotone: allf64(a, allf64(b, a <= b ==> f32(a) <= f32(b)))
+
+// ---- the spatial index neither loses nor invents results (C02) ------------------------------------
+// rt.round restates, for the real-number model used outside `ieee` functions, what the three IEEE obligations above
+// give: Down(a) <= float32(a) <= float32(b) <= Up(b) whenever a <= b.
+//@ axiom rt.round: allof("float64", a, allof("float64", b, a <= b ==> vdown(a) <= vup(b)))
+// the box an object is stored with (rtreeItem / rtreeRect, proved): rounded outwards from its rectangle
+//@ axiom rt.stored: allint(o, stMinX(o) == vdown(gMinX(objGeo(o))) && stMinY(o) == vdown(gMinY(objGeo(o))) && stMaxX(o) == vup(gMaxX(objGeo(o))) && stMaxY(o) == vup(gMaxY(objGeo(o))))
+// (rt.stored is what Insert/Delete are called with: their assumed contracts require exactly this box, see rtreeItem)
+//@ ghost macro qSeq(sp, q) = rtSearch(sp, vdown(gMinX(q)), vdown(gMinY(q)), vup(gMaxX(q)), vup(gMaxY(q)))
+// no loss: a retrievable spatial object related to the query area is among the candidates the index returns
+//@ lemma spatial.complete: allof("map[string]ref", v, allof("map[ref]int", sp, allint(o, allint(q, spOK(v, sp) && inV(v, o) && objSpatial(o) && (gWithin(objGeo(o), q) || gIntersects(objGeo(o), q)) ==> memberOf(qSeq(sp, q), o)))))
+//@ lemma-uses rt.round, rt.stored, rt.search.content, geo.bbox
+// no invention: every candidate is a retrievable spatial object
+//@ lemma spatial.sound: allof("map[string]ref", v, allof("map[ref]int", sp, allint(o, allint(q, spOK(v, sp) && memberOf(qSeq(sp, q), o) ==> inV(v, o) && objSpatial(o)))))
+//@ lemma-uses rt.search.content
